@@ -85,7 +85,7 @@ func (c *Ctx) mapInputs() ([][]byte, []*gen.Printer) {
 
 func c16(c *Ctx) {
 	c.Rep.TieObs = []string{"O-emit.map (both tables of Compose, entry for entry)", "O-emit.text"}
-	c.Rep.Rule = "inputs: corpus, repo .goht files, corner seeds, generator files (with/without package clause, import layouts, CRLF, non-ASCII); every entry of both real tables is checked; distinct = distinct accepted inputs; non-trivial = the map has at least 20 entries"
+	c.Rep.Rule = "inputs: corpus, repo .goht files, corner seeds, generator files (with/without package clause, import layouts, CRLF, non-ASCII); every entry of both real tables is checked, and both lookup functions (SourcePositionFromTarget, TargetPositionFromSource) are called on every key and on positions just outside their table; distinct = distinct accepted inputs; non-trivial = the map has at least 20 entries"
 	ins, _ := c.mapInputs()
 	pairs := c.compileBoth(ins)
 	c.tieCompile(pairs, map[string]bool{"map": true, "text": true, "accept": true, "outcome": true})
@@ -133,6 +133,10 @@ func c16(c *Ctx) {
 				trigger = "nonascii"
 			}
 			c.fail("C16/"+kind+"/"+trigger, what+" in "+clip(fmt.Sprintf("%q", p.Input), 100), map[string]string{"input_hex": hx(p.Input), "detail": what})
+		}
+		// the lookup functions of the map (what the language server calls) agree with the tables they read
+		if strings.HasPrefix(p.Impl.Lookups, "bad:") {
+			report("lookup-api", "a lookup function disagrees with its own table: "+string(unhx(strings.TrimPrefix(p.Impl.Lookups, "bad:"))))
 		}
 		inBounds := func(lines []string, l, col int) bool {
 			return l >= 0 && l < len(lines) && col >= 0 && col <= utf16Len(lines[l])
